@@ -345,7 +345,13 @@ def load_known():
     p = os.path.join(ROOT, "known_findings.json")
     if not os.path.exists(p):
         return []
-    return json.load(open(p))["findings"]
+    out = list(json.load(open(p))["findings"])
+    d = os.path.join(ROOT, "known_findings.d")   # staging area used while checks are being developed
+    if os.path.isdir(d):
+        for fn in sorted(os.listdir(d)):
+            if fn.endswith(".json"):
+                out.extend(json.load(open(os.path.join(d, fn)))["findings"])
+    return out
 
 
 def worker_env():
